@@ -77,8 +77,9 @@ func raceOracle(cfg *vh.Config, res *vh.Result, rounds int, caseBase int) (int, 
 		if err := cmd.Start(); err != nil {
 			return 0, err
 		}
-		timer := time.AfterFunc(time.Duration(60+rounds/5)*time.Second, func() { _ = cmd.Process.Kill() })
-		last, ended := start, false
+		// a real hang is reported by the worker's own watchdog within seconds; this is the backstop for a machine under heavy load
+		timer := time.AfterFunc(time.Duration(240+rounds/2)*time.Second, func() { _ = cmd.Process.Kill() })
+		last, ended, hung := start, false, false
 		sc := bufio.NewScanner(stdout)
 		sc.Buffer(make([]byte, 1<<20), 1<<24)
 		for sc.Scan() {
@@ -102,8 +103,24 @@ func raceOracle(cfg *vh.Config, res *vh.Result, rounds int, caseBase int) (int, 
 						sig = "C10 concurrent first use: call panics, unlike the call run alone"
 					}
 				}
+				if f["mode"] == "retained-result" {
+					// one goroutine, two consecutive encodes: the first result was read after the second call
+					sig = "C10 encode result retained by the caller is overwritten by a later encode on the codec (the returned bytes are not the caller's own)"
+				}
 				res.Fail(vh.Failure{Case: caseBase + last, Stream: "goroutines", Sig: sig,
 					Clause: "each call returns the same result it returns when run alone", Input: f, Got: string(got), Want: string(want)})
+			}
+			if v, ok := m["hang"]; ok {
+				// the worker's watchdog: goroutines were running and no call completed for several seconds
+				var h map[string]any
+				_ = json.Unmarshal(v, &h)
+				hung = true
+				h["seed"] = cfg.Seed
+				h["how"] = fmt.Sprintf("harness/cmd/run_conc/worker -seed %d -start %d -rounds %d (go build -race ./cmd/run_conc/worker)", cfg.Seed, last, last+1)
+				blocked, _ := json.Marshal(h["blocked"])
+				res.Count("race:hang")
+				res.Fail(vh.Failure{Case: caseBase + last, Stream: "goroutines", Sig: "C10 concurrent calls on one codec stop returning: goroutines blocked for good (deadlock)",
+					Clause: "concurrent calls complete without deadlock", Input: h, Got: string(blocked)})
 			}
 			if v, ok := m["end"]; ok {
 				ended = true
@@ -130,6 +147,8 @@ func raceOracle(cfg *vh.Config, res *vh.Result, rounds int, caseBase int) (int, 
 		switch {
 		case ended:
 			start = rounds
+		case hung:
+			start = last + 1
 		case timedOut:
 			res.Count("race:timeout")
 			res.Fail(vh.Failure{Case: caseBase + last, Stream: "goroutines", Sig: "C10 concurrent first use: worker does not finish (deadlock)",
